@@ -548,6 +548,69 @@ class Gen(object):
                     'using': 'link'}
         return Assign(Field({'t': 'self'}, 'N'), self.expr('int'))
 
+    def form_cover(self):
+        """one program per statement / operand form of the grammar that random generation seldom reaches: every relate /
+        unrelate form, phrases without ticks, the words transform / assigner / creator, polymorphic events, empty
+        parameter lists in parentheses, empty statements, real constants, self and selected as whole expressions, keywords
+        used as attribute, parameter, class, function and event names, rcvd_evt, nested index / field chains"""
+        r = self.rnd
+        E = lambda ty='int': self.expr(ty, 1)
+        kwid = lambda: r.choice(['From', 'Select', 'Each', 'Many', 'To', 'Bridge', 'Empty', 'Of', 'Self', 'Selected', 'And', 'If',
+                                 'Return', 'While', 'Not', 'Cardinality', 'Param', 'Delete', 'Across', 'Using', 'Where', 'One'])
+        ps = lambda n=None: [{'n': r.choice(['p', 'q', kwid()]), 'e': E(r.choice(['int', 'bool', 'str']))}
+                             for _ in range(r.randint(1, 3) if n is None else n)]
+        ev = lambda **kw: dict({'id': r.choice(['A1', 'B2', 'E_3', kwid()]), 'poly': False, 'meaning': r.choice(['', "'go'", 'ready']),
+                                'hasdata': False, 'data': []}, **kw)
+        out = []
+        for t in ('relate', 'unrelate'):
+            for ph in ('', "'is next to'", 'precedes', kwid()):
+                for using in ('', 'lnk', 'self'):
+                    a, b = r.choice([('x', 'y'), ('self', 'y'), ('x', 'self'), ('Each', 'Many')])
+                    out.append([{'t': t, 'a': a, 'b': b, 'rel': r.choice(['R1', 'R22', 'Across']), 'ph': ph, 'using': using}])
+        for word in ('class', 'creator', 'assigner'):
+            out.append([{'t': 'gen_class', 'ev': ev(poly=r.random() < 0.5), 'k': r.choice(['A', kwid()]), 'word': word}])
+            out.append([{'t': 'create_ev_class', 'v': 'evt', 'ev': ev(hasdata=True, data=ps()), 'k': 'B', 'word': word}])
+        out.append([{'t': 'gen_inst', 'ev': ev(poly=True, hasdata=True, data=[]), 'to': V('target')}])
+        out.append([{'t': 'gen_inst', 'ev': ev(poly=True, meaning="'x y'", hasdata=True, data=ps()), 'to': {'t': 'self'}}])
+        out.append([{'t': 'create_ev_inst', 'v': 'e1', 'ev': ev(hasdata=True, data=[]), 'to': Field(V('x'), kwid())}])
+        out.append([{'t': 'create_ev_inst', 'v': 'e2', 'ev': ev(poly=True), 'to': {'t': 'self'}}, {'t': 'gen_pre', 'e': V('e2')}])
+        # instance-based operations with and without the word transform
+        oc = lambda h: {'t': 'ocall', 'h': h, 'n': r.choice(['compute', kwid()]), 'ps': ps(r.randint(0, 2))}
+        out.append([{'t': 'call', 'inv': oc(V('x')), 'tw': True}, {'t': 'call', 'inv': oc({'t': 'self'})}])
+        out.append([dict(Assign(V('v'), oc(V('x'))), tw=True), Assign(Field(V('x'), 'N'), oc({'t': 'selected'}))])
+        # empty statements
+        out.append([{'t': 'empty'}, Assign(V('x'), E()), {'t': 'empty'}, {'t': 'empty'}, Ret(E())])
+        out.append([If(E('bool'), [{'t': 'empty'}, Assign(V('y'), E())], [(E('bool'), [{'t': 'empty'}])], [{'t': 'empty'}, {'t': 'break'}])])
+        out.append([{'t': 'while', 'c': E('bool'), 'b': [{'t': 'empty'}]}, {'t': 'for', 'v': 'e', 's': 'es', 'b': [{'t': 'continue'}, {'t': 'empty'}]}])
+        # real constants, self / selected as whole expressions
+        out.append([Assign(V('f'), Bin(r.choice(['+', '*', '-']), {'t': 'real', 'v': r.choice(['3.25', '0.5', '10.0'])}, E())),
+                    Ret({'t': 'real', 'v': '2.75'})])
+        out.append([Assign(V('me'), {'t': 'self'}),
+                    {'t': 'select_from', 'card': r.choice(['any', 'many']), 'v': 's', 'k': r.choice(['A', kwid()]), 'haswhere': True,
+                     'w': Bin('==', {'t': 'selected'}, {'t': 'self'})},
+                    If(Bin('!=', {'t': 'self'}, V('me')), [Ret({'t': 'selected'})])])
+        # keywords as names
+        out.append([Assign(Field(V('x'), kwid()), Field(Field(V('y'), kwid()), kwid())),
+                    {'t': 'call', 'inv': {'t': 'fcall', 'n': kwid(), 'ps': ps()}},
+                    {'t': 'create', 'v': 'q', 'k': kwid()}, {'t': 'create_nv', 'k': kwid()},
+                    Assign(V('c'), {'t': 'enum', 'ns': r.choice(['Color', 'From']), 'n': kwid()}),
+                    Assign(V('d'), {'t': 'icall', 'kind': 'implicit', 'ns': 'LOG', 'n': kwid(), 'ps': ps()})])
+        out.append([{'t': 'select_related', 'card': r.choice(['one', 'any', 'many']), 'v': 'r', 'h': r.choice([V('x'), {'t': 'self'}]),
+                     'chain': [{'k': kwid(), 'rel': 'R1', 'ph': r.choice(['', 'precedes', "'a b'", kwid()])},
+                               {'k': 'B', 'rel': r.choice(['R2', 'From']), 'ph': ''}],
+                     'haswhere': r.random() < 0.5, 'w': Bin('>', Field({'t': 'selected'}, kwid()), E())}])
+        # parameters of both kinds, index and field chains
+        pr = lambda w, n: {'t': 'param', 'w': w, 'n': n} if False else {'t': 'param', 'n': n}
+        out.append([Assign({'t': 'index', 'h': {'t': 'index', 'h': V('m'), 'e': E()}, 'e': E()},
+                           {'t': 'index', 'h': Field({'t': 'index', 'h': V('arr'), 'e': I(1)}, 'items'), 'e': Field({'t': 'param', 'n': 'rec'}, 'w')}),
+                    Ret(Bin('+', {'t': 'index', 'h': {'t': 'param', 'n': 'vals'}, 'e': I(0)}, {'t': 'param', 'n': 'x'}))])
+        out.append([{'t': 'send_event', 'port': 'Port1', 'n': r.choice(['sig', kwid()]), 'ps': [], 'to': Field(V('x'), 'peer')},
+                    {'t': 'call', 'inv': {'t': 'icall', 'kind': 'port', 'ns': 'P', 'n': 'msg', 'ps': []}},
+                    {'t': 'call', 'inv': {'t': 'icall', 'kind': 'bridge', 'ns': 'LOG', 'n': 'LogInfo', 'ps': []}},
+                    {'t': 'call', 'inv': {'t': 'icall', 'kind': 'class', 'ns': 'A', 'n': 'op', 'ps': []}},
+                    {'t': 'control'}, {'t': 'delete', 'v': r.choice(['x', 'self'])}, Ret()])
+        return out
+
     def setup(self):
         """a population built by the program itself: instances, attribute values, links"""
         r = self.rnd
